@@ -67,7 +67,8 @@ class parse_satoshi_string:
     assigns = ["f"]
 
     def requires(f):
-        return cs_ok(fdata(f), fpos(f))
+        # a length prefix of 2^63 or more cannot be satisfied by any buffer (CPython raises OverflowError on such a read)
+        return cs_ok(fdata(f), fpos(f)) and cs_value(fdata(f), fpos(f)) < 2 ** 63
 
     def ensures_value(f, result):
         d = old(fdata(f))
